@@ -62,3 +62,27 @@ package controllers
 //@ assert at call Timer.Done#0: successResponses >= majority
 //@ assert at call Timer.Done#1: successResponses >= majority
 //@ ensures err == nil ==> res != nil && forall k model.Server :: inmap(res, k) ==> listContains(s.shardMetadata.Ensemble, k)
+
+// replaceInList: replacing a member of an ensemble of distinct servers by a server
+// that is not in it yields an ensemble of the same size, still of distinct servers,
+// holding the new server and every old member except the replaced one.
+//
+//@ func replaceInList
+//@ property C19
+//@ ghost p int
+//@ requires forall i int, j int :: 0 <= i && i < j && j < len(list) ==> srvId(list[i]) != srvId(list[j])
+//@ requires 0 <= p && p < len(list) && srvId(list[p]) == srvId(oldServer)
+//@ requires forall i int :: 0 <= i && i < len(list) ==> srvId(list[i]) != srvId(newServer)
+//@ loop 0 invariant cap(res) == 0 || new(res)
+//@ loop 0 modifies new
+//@ loop 0 invariant len(res) == ite(rangeindex < p, rangeindex + 1, rangeindex)
+//@ loop 0 invariant forall i int :: 0 <= i && i < len(res) && i < p ==> srvId(res[i]) == srvId(list[i])
+//@ loop 0 invariant forall i int :: p <= i && i < len(res) ==> srvId(res[i]) == srvId(list[i+1])
+//@ loop 0 invariant forall i int :: 0 <= i && i < len(res) ==> srvId(res[i]) != srvId(newServer) && srvId(res[i]) != srvId(oldServer)
+//@ loop 0 invariant forall i int, j int :: 0 <= i && i < j && j < len(res) ==> srvId(res[i]) != srvId(res[j])
+//@ ensures len(result) == len(list)
+//@ ensures forall i int, j int :: 0 <= i && i < j && j < len(result) ==> srvId(result[i]) != srvId(result[j])
+//@ ensures srvId(result[len(result)-1]) == srvId(newServer)
+//@ ensures forall i int :: 0 <= i && i < p ==> srvId(result[i]) == srvId(list[i])
+//@ ensures forall i int :: p <= i && i < len(result) - 1 ==> srvId(result[i]) == srvId(list[i+1])
+//@ modifies nothing
